@@ -44,6 +44,15 @@ func (r *run) judgeSuccessDespiteFault(o outcome, cancels []cancelEv, panics []p
 			return
 		}
 	}
+	if noOutput && p.hasReducer() {
+		// ErrReduceNoOutput (nil for MapReduceVoid) means "the reducer finished without output":
+		// the reducer function must have returned before the call did
+		if rr := r.redRet.Load(); rr == 0 || rr > o.Ret {
+			r.viol("C10/outcome/no-output-before-reducer-returned",
+				fmt.Sprintf("the call returned %s (stamp %d) although the reducer function had not returned yet (its return stamp: %d)", o.String(), o.Ret, rr), o)
+			return
+		}
+	}
 	if p.Inflight && commit != 0 {
 		// S4: the cancel call had been seen parked inside core/mr (error registered, draining the
 		// source) before the reducer's Write was invoked
